@@ -1,12 +1,15 @@
 (* Model of OutboundMessagesToRawPanelASCIIstrings (converterFunctions.go:1500-1787).  No proofs.
 
-   * [flat], [flat_svg] stand for stripLineBreaks / stripLineBreaksSvg (owned by Model/Flatten.v, C07);
-     here they are Section variables: the encoder only applies them to six payload strings.
+   * [flat], [flat_svg] stand for stripLineBreaks / stripLineBreaksSvg; the encoder only applies
+     them to seven payload strings, so they are Section variables here; [enc_out_go] below
+     instantiates them with the models strip_lb / strip_lb_svg of Model/Flatten.v (C07).
+   * The last step is singleLines(returnStrings): every LF of every returned string becomes a
+     space ([one_lines] of Model/Flatten.v).
    * networkStringFromConfig (json.Marshal) is the identity on the carried JSON text (oracle, MsgOut.v).
    * `for k, v := range HWCavailability` iterates in an unspecified order: [enc_msg] takes the
      iteration order [ord] (a permutation of [om_map m]) as an explicit argument.
    * Panic sites: a nil message (1505), a nil element of Events (1718) or Registers (1738). *)
-From RP Require Import Lib.Base Lib.Sexp Lib.Strings Lib.FloatFmt Model.MsgOut.
+From RP Require Import Lib.Base Lib.Sexp Lib.Strings Lib.FloatFmt Model.MsgOut Model.Flatten.
 From Coq Require Import String.
 Open Scope Z_scope.
 
@@ -122,14 +125,21 @@ Definition enc_msg (ord : list (Z * Z)) (m : out_msg) : res (list bytes) :=
   Ok (enc_pre m ++ map enc_map_entry ord ++ enc_mid m ++ evs ++ regs).
 
 (* ords: the map iteration order of each message, in message order (missing = the stored order) *)
-Fixpoint enc_out (ords : list (list (Z * Z))) (ms : list (option out_msg)) : res (list bytes) :=
+Fixpoint enc_out_raw (ords : list (list (Z * Z))) (ms : list (option out_msg)) : res (list bytes) :=
   match ms with
   | [] => Ok []
   | None :: _ => Panic 1505
   | Some m :: r =>
     let ord := match ords with o :: _ => o | [] => om_map m end in
     do ls <- enc_msg ord m;
-    do rs <- enc_out (tl ords) r;
+    do rs <- enc_out_raw (tl ords) r;
     Ok (ls ++ rs)
   end.
+
+(* singleLines(returnStrings) just before returning *)
+Definition enc_out (ords : list (list (Z * Z))) (ms : list (option out_msg)) : res (list bytes) :=
+  do ls <- enc_out_raw ords ms; Ok (one_lines ls).
 End Enc.
+
+(* the encoder with the library's own flattening helpers *)
+Definition enc_out_go := enc_out strip_lb strip_lb_svg.
